@@ -12,7 +12,7 @@
 From Coq Require Import String Ascii List Bool ZArith Arith Lia.
 From NRI Require Import Base.Lists Base.Strs Base.Assoc Model.Types Model.Result Model.Generate Spec.Apply Spec.GenSpec
   Proofs.KeyedProofs Proofs.GenerateProofs Proofs.GenRefine Proofs.GenRefine2
-  Proofs.CombineWf Proofs.CombineBase Proofs.CombineFamilies Proofs.CombineProofs Proofs.CombineCorollaries.
+  Proofs.CombineWf Proofs.CombineBase Proofs.CombineFamilies Proofs.CombineProofs Proofs.CombineCorollaries Proofs.CombineWitness.
 Import ListNotations.
 Open Scope string_scope.
 Open Scope list_scope.
@@ -81,13 +81,39 @@ Proof.
   repeat split; auto.
 Qed.
 
-(* apply_adj respects the equivalence of the non-scalar part *)
-Lemma apply_adj_ns x y a :
-  obs_equiv (erase x) (erase y) -> obs_equiv (erase (apply_adj x a)) (erase (apply_adj y a)).
+(* the non-scalar part of obs_equiv, field by field *)
+Record NS (x y : container) : Prop := {
+  ns_ann : forall k, kfind fst k (c_ann x) = kfind fst k (c_ann y);
+  ns_mounts : forall k, kfind m_dest k (c_mounts x) = kfind m_dest k (c_mounts y);
+  ns_env : forall k, kfind ref_env_key k (c_env x) = kfind ref_env_key k (c_env y);
+  ns_args : c_args x = c_args y;
+  ns_hooks : c_hooks x = c_hooks y;
+  ns_rlimits : c_rlimits x = c_rlimits y;
+  ns_devices : forall k, kfind d_path k (c_devices x) = kfind d_path k (c_devices y);
+  ns_hp : forall k, kfind fst k (rev (r_hp (c_res x))) = kfind fst k (rev (r_hp (c_res y)));
+  ns_uni : forall k, kfind fst k (r_uni (c_res x)) = kfind fst k (r_uni (c_res y));
+  ns_cgroups : c_cgroups x = c_cgroups y;
+  ns_oom : c_oom x = c_oom y
+}.
+
+Lemma NS_of_erase x y : obs_equiv (erase x) (erase y) -> NS x y.
 Proof.
-  unfold obs_equiv. simp_erase. intros (H1 & H2 & H3 & H4 & H5 & H6 & H7 & _ & H9 & H10 & H11 & H12).
-  cbn [apply_adj c_ann c_mounts c_env c_args c_hooks c_rlimits c_devices c_res c_cgroups c_oom apply_res r_scal r_hp r_uni].
-  split; [|split; [|split; [|split; [|split; [|split; [|split; [|split; [|split; [|split; [|split]]]]]]]]]].
+  unfold obs_equiv. intros (H1 & H2 & H3 & H4 & H5 & H6 & H7 & _ & H9 & H10 & H11 & H12).
+  split; assumption.
+Qed.
+
+Lemma erase_of_NS x y : NS x y -> obs_equiv (erase x) (erase y).
+Proof.
+  intros [H1 H2 H3 H4 H5 H6 H7 H9 H10 H11 H12]. unfold obs_equiv.
+  split; [exact H1|]. split; [exact H2|]. split; [exact H3|]. split; [exact H4|]. split; [exact H5|]. split; [exact H6|].
+  split; [exact H7|]. split; [reflexivity|]. split; [exact H9|]. split; [exact H10|]. split; [exact H11|exact H12].
+Qed.
+
+(* apply_adj respects the equivalence of the non-scalar part *)
+Lemma apply_adj_NS x y a : NS x y -> NS (apply_adj x a) (apply_adj y a).
+Proof.
+  intros [H1 H2 H3 H4 H5 H6 H7 H9 H10 H11 H12].
+  split; cbn [apply_adj c_ann c_mounts c_env c_args c_hooks c_rlimits c_devices c_res c_cgroups c_oom apply_res r_scal r_hp r_uni].
   - apply kfind_fst_ext. intros k. rewrite !alookup_apply_ann, (alookup_ext_kfind _ _ H1). reflexivity.
   - intros k. rewrite !kfind_apply_keyed, H2. reflexivity.
   - intros k. rewrite !kfind_apply_keyed, H3. reflexivity.
@@ -95,7 +121,6 @@ Proof.
   - rewrite H5. reflexivity.
   - rewrite H6. reflexivity.
   - intros k. rewrite !kfind_apply_keyed, H7. reflexivity.
-  - reflexivity.
   - intros k. rewrite !rev_app_distr, !kfind_app, H9. reflexivity.
   - apply kfind_fst_ext. intros k.
     fold (set_all (r_uni (a_res a)) (r_uni (c_res x))). fold (set_all (r_uni (a_res a)) (r_uni (c_res y))).
@@ -103,6 +128,10 @@ Proof.
   - rewrite H11. reflexivity.
   - rewrite H12. reflexivity.
 Qed.
+
+Lemma apply_adj_ns x y a :
+  obs_equiv (erase x) (erase y) -> obs_equiv (erase (apply_adj x a)) (erase (apply_adj y a)).
+Proof. intros H. apply erase_of_NS. apply apply_adj_NS. apply NS_of_erase. exact H. Qed.
 
 Lemma apply_all_ns ps : forall x y,
   obs_equiv (erase x) (erase y) -> obs_equiv (erase (apply_all x ps)) (erase (apply_all y ps)).
@@ -296,4 +325,51 @@ Theorem via_generator sp0 rps s :
 Proof.
   intros Hwf Hok Hcomb Hseq Hmem. destruct (via_generator_equiv sp0 rps s Hwf Hok Hcomb Hseq Hmem) as [H1 H2].
   split; [apply obs_equiv_eqb; exact H1|exact H2].
+Qed.
+
+(* ---------- non-vacuity: a history meeting all five hypotheses ---------- *)
+(* original with key=value environment and distinct keys (wf_cont); plugin 1 sets / removes originals, gives a
+   memory limit and clears a class; plugin 2 removes what plugin 1 set, removes-then-sets, sets a class; plugin 3
+   has no adjustment; plugin 4 sets again what plugin 2 removed *)
+Definition vg_c0 : container :=
+  {| c_id := "c"; c_ann := [("a","0");("b","0")];
+     c_mounts := [ex_mt "/m" "0"; ex_mt "/n" "0"];
+     c_env := ["E=0";"F=0"]; c_args := ["orig"]; c_hooks := hooks_empty;
+     c_rlimits := [{| rl_type := "nofile"; rl_hard := 1; rl_soft := 1 |}];
+     c_devices := [ex_dv "/dev/a" 0%Z; ex_dv "/dev/b" 0%Z];
+     c_res := {| r_scal := [(MemLimit, VZ 5); (MemSwap, VZ 5); (CpuShares, VZ 7); (RdtClass, VS "old")]; r_hp := [("2M", 1%Z)]; r_uni := [("u","0");("w","0")] |};
+     c_cgroups := "/cg"; c_oom := Some 3%Z |}.
+Definition vg_sp0 : spec := {| sp_c := vg_c0; sp_cdi := ["cdi0"]; sp_rules := [] |}.
+Definition vg_A1 : adjustment :=
+  {| a_ann := [("a","1");("n","1");("-b","")]; a_mounts := [ex_mt "/m" "1"; ex_mt "-/n" ""; ex_mt "/x" "1"];
+     a_env := [("E","1");("-F","");("N","1")]; a_args := ["a1"];
+     a_hooks := {| hk_prestart := [ex_hk "/h1"]; hk_createruntime := []; hk_createcontainer := []; hk_startcontainer := [];
+                   hk_poststart := []; hk_poststop := [ex_hk "/p1"] |};
+     a_rlimits := [{| rl_type := "core"; rl_hard := 1; rl_soft := 1 |}]; a_cdi := ["cdi1"];
+     a_devices := [ex_dv "/dev/a" 1%Z; ex_dv "-/dev/b" 0%Z; ex_dv "/dev/x" 1%Z];
+     a_res := {| r_scal := [(MemLimit, VZ 10); (Pids, VZ 9); (RdtClass, VS "")]; r_hp := [("2M", 2%Z); ("1G", 1%Z)];
+                 r_uni := [("u","1");("v","1")] |};
+     a_cgroups := "/cg1"; a_oom := Some 1%Z |}.
+Definition vg_A2 : adjustment :=
+  {| a_ann := [("-a","");("-n","");("n","2")]; a_mounts := [ex_mt "-/m" ""; ex_mt "-/x" ""; ex_mt "/x" "2"];
+     a_env := [("-E","");("-N","");("N","2")]; a_args := ["";"a2";"b2"];
+     a_hooks := {| hk_prestart := [ex_hk "/h2"]; hk_createruntime := []; hk_createcontainer := []; hk_startcontainer := [];
+                   hk_poststart := []; hk_poststop := [] |};
+     a_rlimits := [{| rl_type := "stack"; rl_hard := 2; rl_soft := 2 |}]; a_cdi := ["cdi2";"cdi2b"];
+     a_devices := [ex_dv "-/dev/a" 0%Z; ex_dv "-/dev/x" 0%Z; ex_dv "/dev/x" 2%Z];
+     a_res := {| r_scal := [(CpuShares, VZ 20); (BlockioClass, VS "blk"); (MemReservation, VZ 3)]; r_hp := [("4M", 2%Z)]; r_uni := [("z","2")] |}; a_cgroups := ""; a_oom := None |}.
+Definition vg_A3 : adjustment :=
+  {| a_ann := [("a","3");("b","3")]; a_mounts := [ex_mt "/m" "3"; ex_mt "/n" "3"];
+     a_env := [("E","3");("F","3")]; a_args := []; a_hooks := hooks_empty;
+     a_rlimits := []; a_cdi := []; a_devices := [ex_dv "/dev/a" 3%Z; ex_dv "/dev/b" 3%Z];
+     a_res := res_empty; a_cgroups := ""; a_oom := None |}.
+Definition vg_rps := [ex_R vg_A1; ex_R vg_A2; {| rp_adjust := None; rp_updates := [] |}; ex_R vg_A3].
+
+Lemma vg_example :
+  wf_create (sp_c vg_sp0) vg_rps = true /\
+  exists s, snd (run_request (RCreate (sp_c vg_sp0)) vg_rps) = Ok s /\ wf_gen vg_sp0 (s_adjust s) = true /\
+            seq_wf vg_sp0 (adjs vg_rps) = true /\ memlimits_ok (adjs vg_rps) = true.
+Proof.
+  split; [vm_compute; reflexivity|]. eexists. split; [vm_compute; reflexivity|].
+  split; [vm_compute; reflexivity|]. split; vm_compute; reflexivity.
 Qed.
